@@ -492,3 +492,27 @@ Proof.
     pose proof (cb_is_coinbase t CB) as Q. rewrite (plain_not_coinbase t HP) in Q. discriminate.
   - intros ents U1 H. eapply inputs_disjoint; eauto.
 Qed.
+
+(* the log misses no transaction of a chain the model indexes *)
+Lemma txs_log_complete : forall cfg h insc l b b',
+  index_txs cfg h insc l b = Ok b' -> forall t, In t l -> exists bk, In (t, bk) (txs_log cfg h insc l b).
+Proof.
+  intros cfg h insc l. induction l as [|t0 r IH]; intros b b' H t Ht; [destruct Ht|].
+  cbn [index_txs] in H. dbind H. cbn [txs_log]. rewrite E. destruct Ht as [<-|Ht].
+  - exists b. left. reflexivity.
+  - destruct (IH _ _ H t Ht) as (bk & Hb). exists bk. right. exact Hb.
+Qed.
+
+Lemma chain_log_complete : forall cfg c h st st',
+  index_chain cfg h c st = Ok st' ->
+  forall blk t, In blk c -> In t blk -> exists b, In (t, b) (chain_log cfg h c st).
+Proof.
+  intros cfg c. induction c as [|blk0 r IH]; intros h st st' H blk t Hb Ht; [destruct Hb|].
+  cbn [index_chain] in H. dbind H. cbn [chain_log]. rewrite E. destruct Hb as [<-|Hb].
+  - unfold index_block in E. unfold block_log, block_start. dbind E. cbn [bind]. dbind E. rename a1 into b1. dbind E.
+    destruct blk0 as [|t0 r0]; [destruct Ht|]. cbn [tl] in *. destruct Ht as [<-|Ht].
+    + exists b1. apply in_or_app. left. apply in_or_app. right.
+      match goal with Hq : index_txs _ _ _ _ _ = Ok b1 |- _ => rewrite Hq end. left. reflexivity.
+    + destruct (txs_log_complete _ _ _ _ _ _ E1 t Ht) as (bk & Hk). exists bk. apply in_or_app. left. apply in_or_app. left. exact Hk.
+  - destruct (IH _ _ _ H blk t Hb Ht) as (b & Hk). exists b. apply in_or_app. right. exact Hk.
+Qed.
